@@ -110,6 +110,16 @@ type vhauStep struct {
 	XAuth     *vhauHdr `json:"xauth"`
 	Auth      *vhauHdr `json:"auth"`
 	Tenant    string   `json:"tenant"`
+	// ReuseMs > 0 (plain HTTP steps, last steps of a case only): the identical request - the very same token bytes - is sent
+	// once more this many milliseconds later; its status is reported in the case's "reuse" list
+	ReuseMs int `json:"reuse_ms"`
+}
+
+type vhauReuse struct {
+	Step   int   `json:"step"`
+	Status int   `json:"status"`
+	NowNs  int64 `json:"now_ns"`
+	Fail   string `json:"fail"`
 }
 
 type vhauCase struct {
@@ -153,6 +163,7 @@ type vhauCaseOut struct {
 	Obs   []vhauObs `json:"obs"`
 	Panic string    `json:"panic"`
 	Local string    `json:"local"`
+	Reuse []vhauReuse `json:"reuse"`
 }
 
 type vhauOutput struct {
@@ -165,6 +176,11 @@ type vhauKeys struct {
 	rsa  map[string]*rsa.PrivateKey
 	ec   map[string]*ecdsa.PrivateKey
 	ed   map[string]ed25519.PrivateKey
+
+	reuse     *[]vhauReuse
+	reuseMu   sync.Mutex
+	reuseWG   sync.WaitGroup
+	reuseStep int
 }
 
 func vhauNewKeys() *vhauKeys {
@@ -828,6 +844,36 @@ func (k *vhauKeys) doStep(d *vhauDeployment, client *http.Client, st *vhauStep) 
 	}
 	b, _ := io.ReadAll(io.LimitReader(resp.Body, 1<<16))
 	_ = resp.Body.Close()
+	if st.ReuseMs > 0 && k.reuse != nil {
+		k.reuseWG.Add(1)
+		stepIdx := k.reuseStep
+		go func(hdr http.Header, host string) {
+			defer k.reuseWG.Done()
+			time.Sleep(time.Duration(st.ReuseMs) * time.Millisecond)
+			r := vhauReuse{Step: stepIdx}
+			req2, err := http.NewRequest(st.Method, "http://"+target, nil)
+			if err == nil {
+				req2.Header = hdr
+				if host != "" {
+					req2.Host = host
+				}
+				r.NowNs = time.Now().UnixNano()
+				resp2, err2 := client.Do(req2)
+				if err2 != nil {
+					r.Fail = err2.Error()
+				} else {
+					_, _ = io.Copy(io.Discard, io.LimitReader(resp2.Body, 1<<16))
+					_ = resp2.Body.Close()
+					r.Status = resp2.StatusCode
+				}
+			} else {
+				r.Fail = err.Error()
+			}
+			k.reuseMu.Lock()
+			*k.reuse = append(*k.reuse, r)
+			k.reuseMu.Unlock()
+		}(hdr.Clone(), st.Host)
+	}
 	ob.Status = resp.StatusCode
 	ob.Err = vhauErrOf(b)
 	ob.Location = resp.Header.Get("Location")
@@ -865,8 +911,12 @@ func (k *vhauKeys) runCase(c *vhauCase, dir string, peer *vhauPeer) (out vhauCas
 		CheckRedirect: func(*http.Request, []*http.Request) error { return http.ErrUseLastResponse },
 		Timeout:       20 * time.Second,
 	}
+	out.Reuse = []vhauReuse{}
+	k.reuse = &out.Reuse
+	defer func() { k.reuseWG.Wait(); k.reuse = nil }()
 	for i := range c.Steps {
 		done := make(chan vhauObs, 1)
+		k.reuseStep = i
 		go func(st *vhauStep) { done <- k.doStep(d, client, st) }(&c.Steps[i])
 		select {
 		case ob := <-done:
